@@ -381,13 +381,37 @@ func verifH_C05_select() {
 	}
 	// LIMIT / OFFSET
 	lim, off := -1, -1
-	if limoff&1 != 0 {
-		lim = verifChoice("limit", R+2)
-		q.LimitActive, q.Limit = true, lim
-	}
-	if limoff&2 != 0 {
-		off = verifChoice("offset", R+2)
-		q.OffsetActive, q.Offset = true, off
+	if limoff&4 != 0 {
+		// any non-negative 64-bit LIMIT / OFFSET (what the parser can produce)
+		l, o := verifI64("biglimit"), verifI64("bigoffset")
+		verifAssume(verifAnd(l >= 0, o >= 0))
+		if limoff&1 != 0 {
+			q.LimitActive, q.Limit = true, int(l)
+			lim = R + 1 // reference: clamp to the table size (forks on the symbolic value)
+			for k := 0; k <= R; k++ {
+				if l == int64(k) {
+					lim = k
+				}
+			}
+		}
+		if limoff&2 != 0 {
+			q.OffsetActive, q.Offset = true, int(o)
+			off = R + 1
+			for k := 0; k <= R; k++ {
+				if o == int64(k) {
+					off = k
+				}
+			}
+		}
+	} else {
+		if limoff&1 != 0 {
+			lim = verifChoice("limit", R+2)
+			q.LimitActive, q.Limit = true, lim
+		}
+		if limoff&2 != 0 {
+			off = verifChoice("offset", R+2)
+			q.OffsetActive, q.Offset = true, off
+		}
 	}
 
 	rows, fields, err := EvaluateSelect(q, rm)
